@@ -145,7 +145,11 @@ def r2_scanner(prog, res):
         return
     sw = sws[0]
     cond = expr_str(loops[0]["ch"][0])
-    ok = "_file.get()" in cond and expr_str(strip(sw["ch"][0])) in ("c",)
+    got = None
+    for x in walk(loops[0]["ch"][0]):
+        if x["k"] == "Assign" and strip(x["ch"][1]) is not None and strip(x["ch"][1])["k"] == "Call" and (strip(x["ch"][1]).get("fn") or "").endswith("::get"):
+            got = strip(x["ch"][0]).get("d")
+    ok = got is not None and strip(sw["ch"][0]) is not None and strip(sw["ch"][0]).get("d") == got
     res.add("R2.scanner_dispatch", "R2|src/cllazyfile/sectionReader.cc|seekInstanceEnd|loop-head", f.where(loops[0]), ok,
             "each iteration reads one character and dispatches on it" if ok else "loop head / switch operand changed: %s / %s" % (cond, expr_str(sw["ch"][0])))
     q = arm_of(sw, "'")
